@@ -14,13 +14,14 @@
 EXTENDS Mirror, TraceBase
 
 VARIABLES seen,   \* files whose event has been handled completely since the mirror was (re)started
-          cur     \* the event being dispatched [f, rep]
+          cur     \* the event being dispatched [f, rep, snap]: file, "is a repeated event", the trees when it arrived
 allvars == <<vars, tvars, seen, cur>>
+NoEvent == [f |-> 0, rep |-> FALSE, snap |-> <<>>]
 
 TInit ==
   /\ TBInit
   /\ MInit(Hdr.cfg)
-  /\ seen = {} /\ cur = [f |-> 0, rep |-> FALSE]
+  /\ seen = {} /\ cur = NoEvent
 
 TreeSrc == E.src
 TreeDst == [final |-> E.dstF, tmp |-> E.dstT]
@@ -36,7 +37,6 @@ TreeClauses ==
     <<"C17-PropsAndMdCopied-metadata-or-properties-file-intact-nowhere", ~MdNoLoss'>>,
     <<"C17-PropsAndMdCopied-properties-file-left-the-source", ~PropsStay'>>,
     <<"C17-NewestMdStays", ~NewestMdStays'>>,
-    <<"C17-Idempotent-repeated-event-changed-a-tree", pc.rep /\ ~Unch>>,
     <<"C17-Idempotent-complete-destination-file-changed",
       \E f \in Files : dst.final[f] = Full /\ dst'.final[f] # Full>>,
     <<"C17-source-file-reappeared", \E f \in Files : src[f] = Absent /\ src'[f] # Absent>>,
@@ -86,15 +86,18 @@ Counts(kind) == kind \in {"created", "modified", "moved"}
 TDeliver ==
   /\ E.ev = "deliver"
   /\ IF E.f \notin Files \/ pc # Idle THEN Rej({"harness-bad-deliver"}) /\ UNCHANGED <<vars, seen, cur>>
-     ELSE /\ cur' = [f |-> E.f, rep |-> E.f \in seen /\ Sel(E.f)]
+     ELSE /\ cur' = [f |-> E.f, rep |-> E.f \in seen /\ Sel(E.f), snap |-> <<src, dst>>]
           /\ last' = Act("Deliver", E.f)
           /\ UNCHANGED <<cfg, src, dst, pend, pc, rbq, hist, seen>> /\ Adv
 THandled ==
   /\ E.ev = "handled"
   /\ seen' = IF Counts(E.kind) THEN seen \cup {cur.f} ELSE seen
-  /\ cur' = [f |-> 0, rep |-> FALSE]
+  /\ cur' = NoEvent
   /\ last' = Act("Handled", cur.f)
-  /\ UNCHANGED <<cfg, src, dst, pend, pc, rbq, hist>> /\ Adv
+  /\ UNCHANGED <<cfg, src, dst, pend, pc, rbq, hist>>
+  \* a repeated / late / stale event may be handled in any way (even by staging and publishing the same content
+  \* again) as long as nothing is different afterwards
+  /\ AdvNote(Names({<<"C17-Idempotent-repeated-event-changed-a-tree", cur.rep /\ cur.snap # <<src, dst>>>>}))
 TBegin ==
   /\ E.ev = "begin"
   /\ IF E.f \notin Files \/ E.r \notin {"copy", "move", "rb"} THEN Rej({"harness-bad-begin"}) /\ UNCHANGED <<vars, seen, cur>>
@@ -128,14 +131,14 @@ TVanish ==
 TCrash ==
   /\ E.ev = "crash"
   /\ Follow
-  /\ pc' = Idle /\ rbq' = {} /\ seen' = {} /\ cur' = [f |-> 0, rep |-> FALSE]
+  /\ pc' = Idle /\ rbq' = {} /\ seen' = {} /\ cur' = NoEvent
   /\ hist' = [hist EXCEPT !.crashes = @ + 1, !.down = TRUE]
   /\ last' = Act("Crash", pc.f)
   /\ UNCHANGED <<cfg, pend>>
   /\ AdvNote(TreeClauses)
 TStart ==    \* a (new) mirror object; its start() replay follows as deliver / begin / op / end events
   /\ E.ev = "start"
-  /\ pc' = Idle /\ rbq' = {} /\ seen' = {} /\ cur' = [f |-> 0, rep |-> FALSE]
+  /\ pc' = Idle /\ rbq' = {} /\ seen' = {} /\ cur' = NoEvent
   /\ hist' = [hist EXCEPT !.down = FALSE]
   /\ last' = Act("Restart", 0)
   /\ UNCHANGED <<cfg, src, dst, pend>> /\ Adv
